@@ -82,8 +82,9 @@ pub fn check_c14(ctx: &mut Ctx, cfg: &Cfg, how: How) {
         (r, bytes)
     });
     match &r {
+        WOut::WrongSize { .. } => unreachable!("calc never reports WrongSize"),
         WOut::Panic(p) => {
-            ctx.violate("calculate_size-panics", "compound", &short_site(&p.site), case, "calculate_size returns", r.render());
+            ctx.violate("calculate_size-panics", "compound", &drive::site_file(&p.site), case, "calculate_size returns", r.render());
             return;
         }
         WOut::Err(e) => {
@@ -671,6 +672,9 @@ fn mk_rb_hist(b: &Rb, s: &mut Src, canonical: bool) -> ReportBlockBuilder {
 
 /// FIR entries may come out in any order: sort them before comparing histories.
 fn canon_fir(cfg: &Cfg, mut b: Vec<u8>) -> Vec<u8> {
+    if cfg.is_compound() {
+        return crate::mon::writers::canon(&b);
+    }
     if let Cfg::Fb { fci: Fci::Fir(_), padding, .. } = cfg {
         let pad = *padding as usize;
         if b.len() >= 12 + pad && (b.len() - 12 - pad) % 8 == 0 {
